@@ -27,10 +27,9 @@ Lemma maxpow2_spec n :
   exists l, maxpow2 n = (2 ^ l, l) /\ 0 <= l <= 62 /\ 2 ^ l < n <= 2 * 2 ^ l.
 Proof.
   intros H. unfold maxpow2.
-  destruct (maxpow2_loop_spec 62 1 0 n) as [l [E [Hl Hb]]]; try lia.
-  - reflexivity.
-  - exact (proj2 H).
-  - exists l. split; [exact E|]. split; [lia|exact Hb].
+  assert (Hn : n <= 2 ^ (0 + Z.of_nat 62 + 1)) by (change (0 + Z.of_nat 62 + 1) with 63; lia).
+  destruct (maxpow2_loop_spec 62 1 0 n ltac:(lia) eq_refl ltac:(lia) Hn) as [l [E [Hl Hb]]].
+  exists l. split; [exact E|]. split; [lia|exact Hb].
 Qed.
 
 Lemma maxpow2_split_point n :
@@ -207,6 +206,10 @@ Proof.
   reflexivity.
 Qed.
 
+Lemma fold_hashes_cons2 h x r :
+  fold_hashes node_hash (h :: x :: r) = option_map (node_hash h) (fold_hashes node_hash (x :: r)).
+Proof. reflexivity. Qed.
+
 Lemma blocks_fold lo hi bs :
   Blocks lo hi bs -> lo < hi -> 0 <= lo -> hi <= N ->
   fold_hashes node_hash (map block_hash bs) = Some (T lo hi).
@@ -219,7 +222,7 @@ Proof.
   - assert (Hlt' : lo + 2 ^ level < hi).
     { inversion HB; subst. pose proof (pow2_pos level0 ltac:(assumption)). lia. }
     specialize (IH Hlt' ltac:(lia) Hhi).
-    cbn [fold_hashes]. cbn [map] in IH. rewrite IH. cbn [option_map].
+    cbn [map] in IH |- *. rewrite fold_hashes_cons2, IH. cbn [option_map].
     rewrite (HT lo hi) by lia.
     rewrite (split_point_unique (hi - lo) level) by lia. reflexivity.
 Qed.
@@ -283,7 +286,7 @@ Lemma store_step N st h :
   exists hs, stored_hashes_for_record_hash node_hash N h (reader_of st) = Ok hs /\
              store_holds (N + 1) (st ++ hs) /\ zlen (st ++ hs) = first_index (N + 1).
 Proof.
-  intros HN HT Hst Hlen Hh.
+  intros HN HT Hst Hlen HhN.
   assert (H64 : 2 ^ 62 < 2 ^ 64) by (apply pow2_lt; lia).
   set (m := tz (N + 1)).
   pose proof (tz_nonneg (N + 1)) as Hm0. fold m in Hm0.
@@ -308,11 +311,18 @@ Proof.
       replace N with ((2 * c - 1) * 2 ^ Z.of_nat i + (2 ^ Z.of_nat i - 1)) by lia.
       rewrite Z.div_add_l by lia. rewrite Z.div_small by lia. lia. }
     rewrite Hs. split; [apply stored_hash_index_nonneg; lia|].
-    rewrite (Hst (Z.of_nat i) (2 * c - 1 - 1)) by (try lia; nia).
-    unfold Oh, a. f_equal; lia. }
+    rewrite Hpow in Hc.
+    assert (Hle : (2 * c - 1 - 1 + 1) * 2 ^ Z.of_nat i <= N).
+    { replace ((2 * c - 1 - 1 + 1) * 2 ^ Z.of_nat i) with (c * (2 * 2 ^ Z.of_nat i) - 2 ^ Z.of_nat i) by ring.
+      lia. }
+    rewrite (Hst (Z.of_nat i) (2 * c - 1 - 1)) by lia.
+    unfold Oh, a. rewrite Hpow. clear Hs Hp Hpow. generalize dependent (2 ^ Z.of_nat i). intros p Hc Hle.
+    assert (E1 : (2 * c - 1 - 1) * p = N + 1 - 2 * p) by nia.
+    assert (E2 : (2 * c - 1 - 1 + 1) * p = N + 1 - p) by nia.
+    rewrite E1, E2. reflexivity. }
   unfold stored_hashes_for_record_hash. rewrite (read_hashes_reader_of _ _ _ Hread). cbn [bind].
   rewrite rev_involutive.
-  assert (Hh0 : h = Hh O). { unfold Hh, a. cbn. rewrite <- Hh. f_equal. lia. }
+  assert (Hh0 : h = Hh O). { unfold Hh, a. rewrite <- HhN. f_equal. change (2 ^ Z.of_nat 0) with 1. lia. }
   rewrite Hh0.
   rewrite (build_hashes_spec Oh Hh (Z.to_nat m) 0).
   2:{ intros i Hi. unfold Oh, Hh.
